@@ -980,7 +980,9 @@ class C14(Spec):
 class C15(Spec):
     level_text = ('Full for the registry invariant: C15_nodup (the id registry of every reachable session has no duplicates -- frame '
                   'theorem instance), C15_slug_fresh (slugify never returns a registered id; the suffix search terminates by pigeonhole, '
-                  'proved, not assumed), C15_register_or_report (injection either registers a new id or logs a duplicate diagnostic). '
+                  'proved, not assumed), C15_register_or_report (injection either registers a new id or logs a duplicate diagnostic), '
+                  'C15_ids_lower_case (every id in the registry of every reachable session is lower-case: the frame obligation for the registry '
+                  'carries the premise, discharged by C15_lower_idempotent over the generated lower-case table), C15_slug_lower_case. '
                   'That emitted id attributes coincide with registrations is decided by the oracle (ids parsed from outputs) and correspondence.')
     rule = ('sessions of 1-4 documents with headers (colliding, empty, suffix-looking slugs), explicit ids colliding with each other and '
             'with generated ones; ids parsed from outputs must be lower-case, a repeat iff a duplicate diagnostic; non-trivial = an id is emitted')
